@@ -27,7 +27,7 @@
    their original statements (other units apply them positionally); the
    statements with the narrower hypotheses are the ones named _at / _url / _exact. *)
 From Coq Require Import List ZArith Bool Permutation String.
-From Verif Require Import C03.Trie C03.Model C03.Spec C03.SpecLocal C03.Proofs C03.Stars C03.Exact C03.Accept C03.Loader.
+From Verif Require Import C03.Trie C03.Model C03.Spec C03.SpecLocal C03.Proofs C03.Stars C03.Exact C03.Accept C03.Loader C03.Query.
 Import ListNotations.
 Open Scope Z_scope.
 
@@ -660,4 +660,122 @@ Example C03_demo_status_lists :
   /\ map (fun st => status_ok (f [404; 200]) (r st)) [200; 404; 429] = [true; true; false]
   /\ map (status_in_bsearch [500; 429; 404]) [404; 429; 500] = [false; false; false]
   /\ map (status_in_bsearch [404; 429; 500]) [404; 429; 500; 200; 503] = [true; true; true; false; false].
+Proof. vm_compute. repeat split; reflexivity. Qed.
+
+(* ================================================================
+   the query string AS WRITTEN: a pair that cannot be decoded (bad percent
+   escape, lone "%", raw ";") is not a parameter and takes nothing away from the
+   well-formed pairs next to it
+   ================================================================ *)
+
+(* for every tree, transaction and position: an undecodable pair anywhere in the
+   query string changes nothing about the selection *)
+Theorem C03_malformed_query_pair_ignored : forall t x l1 l2,
+  get_flow t (with_query x (query_keep (l1 ++ None :: l2))) =
+  get_flow t (with_query x (query_keep (l1 ++ l2))).
+Proof. intros t x l1 l2. rewrite query_keep_drop_bad. reflexivity. Qed.
+Print Assumptions C03_malformed_query_pair_ignored.
+
+(* completeness with the filter judged on the WELL-FORMED pairs only; [mode] is
+   what the request-side reads out of the pieces of the query string *)
+Definition C03_complete_at_rawquery_for (mode : list rawpair -> list (tok * tok)) : Prop :=
+  forall fs x l f,
+  load_ok fs = true -> kc_at fs f (url_of x) = true -> In f fs ->
+  matches (pat f) (url_of x) = true -> unshadowed_k fs f (url_of x) = true ->
+  constraints_hold f (with_query x (query_keep (filter is_good l))) ->
+  In f (get_flow (tree_of fs) (with_query x (mode l))).
+
+Theorem C03_complete_at_rawquery : C03_complete_at_rawquery_for query_keep.
+Proof.
+  intros fs x l f HL HK Hf HM HU HC. rewrite query_keep_filter_good in HC.
+  exact (C03_complete_at fs (with_query x (query_keep l)) f HL HK Hf HM HC HU).
+Qed.
+Print Assumptions C03_complete_at_rawquery.
+
+(* the "exactly when", from the raw query string to the selection *)
+Theorem C03_exact_lax_rawquery : forall fs x raw f,
+  load_ok fs = true -> kc_url fs (url_of x) = true ->
+  (In f (get_flow (tree_of fs) (with_query x (decode_query raw))) <->
+   In f fs /\ matches_lax (pat f) (url_of x) = true /\
+   constraints_hold f (with_query x (query_keep (filter is_good (parse_query raw)))) /\
+   unshadowed_k fs f (url_of x) = true).
+Proof.
+  intros fs x raw f HL HK. rewrite query_keep_filter_good.
+  exact (C03_exact_lax fs (with_query x (decode_query raw)) f HL HK).
+Qed.
+Print Assumptions C03_exact_lax_rawquery.
+
+(* the variant "one undecodable pair and the request has no parameters at all"
+   (url.ParseQuery's error taken as fatal) loses the flow whose requirement a
+   well-formed pair meets *)
+Theorem C03_query_strict_refuted : ~ C03_complete_at_rawquery_for query_strict.
+Proof.
+  intro H.
+  pose (f := mkFlow 0 0 (bs "a/b") [] [] [(bs "page", bs "1")] []).
+  specialize (H [f] (GET "a/b") (parse_query (bs "page=1&cursor=%zz")) f).
+  assert (HF : In f (get_flow (tree_of [f])
+                       (with_query (GET "a/b") (query_strict (parse_query (bs "page=1&cursor=%zz")))))).
+  { apply H.
+    - vm_compute. reflexivity.
+    - vm_compute. reflexivity.
+    - left. reflexivity.
+    - vm_compute. reflexivity.
+    - vm_compute. reflexivity.
+    - apply qualifies_iff. vm_compute. reflexivity. }
+  vm_compute in HF. exact HF.
+Qed.
+Print Assumptions C03_query_strict_refuted.
+
+(* on well-formed query strings the two readings coincide: the variant is
+   invisible to every test that sends well-formed queries only *)
+Theorem C03_query_strict_agrees_when_wellformed : forall l,
+  forallb is_good l = true -> query_strict l = query_keep l.
+Proof. exact query_strict_all_good. Qed.
+Print Assumptions C03_query_strict_agrees_when_wellformed.
+
+Example C03_demo_raw_query :
+  let f := mkFlow 0 0 (bs "a/b") [] [] [(bs "page", bs "1")] [] in
+  let sel (raw : string) := map f_id (get_flow (tree_of [f]) (with_query (GET "a/b") (decode_query (bs raw)))) in
+  load_ok [f] = true
+  /\ parse_query (bs "page=1&cursor=%zz") = [Some (bs "page", bs "1"); None]
+  /\ parse_query (bs "cursor=100%&&page=1&sig=a;b") = [None; Some (bs "page", bs "1"); None]
+  /\ decode_query (bs "x=%41+b&=y&page") = [(bs "x", bs "A b"); ([], bs "y"); (bs "page", [])]
+  /\ map sel ["page=1"%string; "page=1&cursor=%zz"%string; "page=1&sig=a;b"%string; "cursor=100%&page=1"%string; "page=2&cursor=%zz"%string;
+              "page=%zz&page=1"%string; "page=1;sort=asc"%string; "page=%31"%string]
+     = [[0]; [0]; [0]; [0]; []; [0]; []; [0]]
+  /\ query_strict (parse_query (bs "page=1&cursor=%zz")) = [].
+Proof. vm_compute. repeat split; reflexivity. Qed.
+
+(* ================================================================
+   required header VALUES are compared without regard to ASCII letter case
+   (strings.EqualFold), on both sides
+   ================================================================ *)
+Theorem C03_header_value_case_insensitive : forall t x,
+  get_flow t (lower_header_values x) = get_flow t x.
+Proof. exact get_flow_lower_sent. Qed.
+Print Assumptions C03_header_value_case_insensitive.
+
+Theorem C03_required_header_value_case_insensitive : forall x f,
+  qualifies x (lower_required_values f) = qualifies x f.
+Proof. exact qualifies_lower_required. Qed.
+Print Assumptions C03_required_header_value_case_insensitive.
+
+(* the variant "values compared byte for byte" depends on the spelling sent *)
+Theorem C03_header_value_exact_refuted :
+  ~ (forall f x, headers_ok_exact f (lower_header_values x) = headers_ok_exact f x).
+Proof.
+  intro H.
+  specialize (H (mkFlow 0 0 (bs "a/b") [] [(bs "X-Env", bs "prod")] [] [])
+                (mkTxn false (bs "a/b") (bs "GET") [(bs "x-env", bs "PROD")] [] 0)).
+  vm_compute in H. discriminate H.
+Qed.
+Print Assumptions C03_header_value_exact_refuted.
+
+Example C03_demo_header_value_case :
+  let fl i (v : string) := mkFlow i 0 (bs "a/{id}") [bs "GET"] [(bs "X-Env", bs v)] [] [] in
+  let fs := [fl 0 "prod"%string; fl 1 "staging"%string] in
+  let sel (v : string) := map f_id (get_flow (tree_of fs) (mkTxn false (bs "a/17") (bs "GET") [(bs "x-env", bs v)] [] 0)) in
+  load_ok fs = true
+  /\ map sel ["prod"%string; "PROD"%string; "Staging"%string; "dev"%string; "pro"%string] = [[0]; [0]; [1]; []; []]
+  /\ headers_ok_exact (fl 0 "prod"%string) (mkTxn false (bs "a/17") (bs "GET") [(bs "x-env", bs "PROD")] [] 0) = false.
 Proof. vm_compute. repeat split; reflexivity. Qed.
